@@ -490,6 +490,36 @@ def check_random_generator_ownership(tier, seed):
                              failures=sum(1 for o in obs if o['status'] != 'proved')))
 
 
+def check_sweep_dependent_coefficients_of_two_sweepers(tier, seed):
+    """two sweepers in one process (two controllers, or two levels) with sweep-dependent preconditioners: what one of them asked for must not decide what
+    the other one gets.  Sweepers with EQUAL node counts but other node sets / other preconditioners refresh their coefficients alternately; each result
+    must be bit-identical to what the same sweeper computes when it is the only one in a fresh interpreter state of these tables (its own generator)."""
+    import numpy as np
+    from pySDC.implementations.sweeper_classes.generic_implicit import generic_implicit
+    from pySDC.implementations.sweeper_classes.imex_1st_order import imex_1st_order
+
+    cfgs = [dict(quad_type='LOBATTO', node_type='LEGENDRE'), dict(quad_type='RADAU-RIGHT', node_type='LEGENDRE'), dict(quad_type='RADAU-RIGHT', node_type='EQUID'), dict(quad_type='GAUSS', node_type='CHEBY-1')]
+    fails, cases = {}, 0
+    for cls in (generic_implicit, imex_1st_order):
+        for M in (2, 3):
+            sws = [cls(dict(num_nodes=M, QI='MIN-SR-FLEX', **c), None) for c in cfgs]
+            for k in (1, 2, 3, 1):
+                for sw, c in zip(sws, cfgs):
+                    cases += 1
+                    sw.updateVariableCoeffs(k)
+                    want = sw.get_Qdelta_implicit('MIN-SR-FLEX', k=k)  # the sweeper's own generator, asked directly
+                    own = np.zeros((M + 1, M + 1))
+                    own[1:, 1:] = np.diag(np.asarray(sw.coll.nodes) / k)  # MIN-SR-FLEX: diag(tau) / k on the sweeper's OWN nodes
+                    if not (np.array_equal(sw.QI, want) and (k > M or np.allclose(sw.QI, own, rtol=1e-13, atol=0))):  # closed form known for k <= M only
+                        fails.setdefault(f'{cls.__name__}:QI_of_sweep_k_belongs_to_the_sweepers_own_nodes_whatever_other_sweepers_asked_before', []).append(dict(M=M, k=k, **c))
+    names = list(fails) or ['generic_implicit:QI_of_sweep_k_belongs_to_the_sweepers_own_nodes_whatever_other_sweepers_asked_before']
+    obs = [dict(name=f'bounded:{n}', status='refuted' if fails.get(n) else 'proved', backend='native-run', seconds=0.0, kind='bounded', size=0, model=dict(first=fails[n][:4]) if fails.get(n) else None,
+                reason='', path=0, counted=False) for n in names]
+    return dict(contract='Sweeper.updateVariableCoeffs [two sweepers in one process]', prop='C19', inst={}, label='bounded', kind='bounded', obligations=obs, canaries=[], paths=1, status='ok',
+                bounded=dict(what='alternating updateVariableCoeffs(k) of sweepers with equal node counts and different node sets', bound='generic_implicit / imex_1st_order, M=2,3, four node sets, k=1,2,3,1', cases=cases,
+                             failures=sum(1 for o in obs if o['status'] != 'proved')))
+
+
 def _history_free_callees():
     # two mechanisms whose failure shows only in SEQUENCES of runs / records and that are under contract elsewhere:
     #   Hooks.add_to_stats builds every key from its own arguments (C14: a field the caller omits is None, whatever was recorded before)
@@ -503,7 +533,7 @@ def _history_free_callees():
 
 
 CONTRACTS = [RestartBlockPoison, ResetStats, ReturnStats] + _history_free_callees()
-EXTRAS = [bounded_runs, check_random_generator_ownership]
+EXTRAS = [bounded_runs, check_random_generator_ownership, check_sweep_dependent_coefficients_of_two_sweepers]
 ASSUMPTIONS = ['determinism of numpy / float operations for identical inputs', 'bit identity is decided only by the bounded differential runs']
 UNDECIDED = ['class-level state of FrozenClass.attrs (status variable names registered by one controller are accepted by all): reported, not an obligation',
              'timing hooks, logging handlers, external library caches']
